@@ -129,8 +129,119 @@ def path_probes(ctx, n):
         ctx.corr_diff("path probe", {"why": "row count", "code": len(ja), "model": len(jb)})
 
 
+def positions_of(save):
+    """Every position (container path + index, or a path) the engine wrote into this save."""
+    out = []
+    for fname, fl in sorted((save.get("flows") or {}).items()):
+        cs = fl.get("callstack") or {}
+        for ti, th in enumerate(cs.get("threads") or []):
+            for ei, el in enumerate(th.get("callstack") or []):
+                out.append((fname, "thread", ti, ei, el.get("cPath"), el.get("idx")))
+            out.append((fname, "prev", ti, th.get("previousContentObject")))
+        for ci, c in enumerate(fl.get("currentChoices") or []):
+            out.append((fname, "choice", ci, c.get("originalChoicePath"), c.get("targetPath")))
+        for k, th in sorted((fl.get("choiceThreads") or {}).items()):
+            for ei, el in enumerate(th.get("callstack") or []):
+                out.append((fname, "choiceThread", k, ei, el.get("cPath"), el.get("idx")))
+    return out
+
+
+def position_case(job):
+    """Positions written into a save denote the same positions when read back: save, load into another
+    story, save again - the positions are the same, and the restored story stands where the original does."""
+    from lib import play, stories
+    story, wseed = job
+    rng = random.Random(wseed)
+    res = {"digest": None, "nontrivial": False, "violations": [], "skipped": None, "saves": 0}
+    a = play.RtSession()
+    snaps = []
+
+    def snap(s, r):
+        if r.random() < 0.5:
+            sv = s.send(["savejson"])
+            if sv.get("r") == "ok":
+                snaps.append((len(s.ops), sv["v"]))
+
+    def hop(s, r):
+        x = r.random()
+        if x < 0.25:
+            # a flow that exists but has not been continued yet rests at the very start of the root container
+            s.send(["switch", "unstarted%d" % r.randrange(2)])
+            snap(s, random.Random(0))
+            s.send(["default"])
+        snap(s, r)
+
+    r0 = a.send(["new", story["path"]])
+    if r0.get("r") != "ok":
+        a.close()
+        res["skipped"] = "loaderr"
+        return res
+    sv = a.send(["savejson"])          # before the first continue
+    if sv.get("r") == "ok":
+        snaps.append((len(a.ops), sv["v"]))
+    a.close()
+    a = play.RtSession()
+    end = play.walk(a, rng, story["path"], seed=3, max_turns=rng.choice([1, 2, 4]), setup=stories.setup_ops(story),
+                    per_line=[snap], per_turn=[hop], observe=False)
+    hist = list(a.ops)
+    a.close()
+    if end in ("fuel", "loaderr"):
+        res["skipped"] = end
+        return res
+    res["digest"] = json.dumps([story["path"], hist], sort_keys=True)
+    for at, save in snaps[:12]:
+        b = play.RtSession()
+        b.send(["new", story["path"]])
+        lr = b.send(["loadtext", json.dumps(save)])
+        again = b.send(["savejson"])
+        probe = []
+        for fname in sorted((save.get("flows") or {}).keys()):
+            if fname != "DEFAULT_FLOW":
+                b.send(["switch", fname])
+            else:
+                b.send(["default"])
+            probe.append((fname, b.send(["can"]).get("v"), b.send(["curpath"]).get("v")))
+        b.close()
+        res["saves"] += 1
+        p1 = positions_of(save)
+        res["nontrivial"] = res["nontrivial"] or any(x[1] == "thread" and x[4] is not None for x in p1)
+        if lr.get("r") != "ok" or again.get("r") != "ok":
+            res["violations"].append(({"story": stories.describe(story), "history": hist[:at], "save": save, "load": lr,
+                                       "why": "a save written by the engine is not read back"}, {"kind": "position-load"}))
+            break
+        p2 = positions_of(again["v"])
+        if p1 != p2:
+            k = next((i for i, (x, y) in enumerate(zip(p1, p2)) if x != y), min(len(p1), len(p2)))
+            res["violations"].append(({"story": stories.describe(story), "history": hist[:at],
+                                       "written": p1[k] if k < len(p1) else None,
+                                       "written_again_after_load": p2[k] if k < len(p2) else None,
+                                       "why": "a position written into a save does not denote the same position when read back"},
+                                      {"kind": "position-roundtrip"}))
+            break
+    return res
+
+
+def positions(ctx):
+    from lib import stories
+    quick = ctx.tier == "quick"
+    pool = stories.corpus_pool(ctx)[:: (5 if quick else 1)]
+    for prof, n in (("core", 10 if quick else 200), ("flows", 8 if quick else 150), ("functions", 6 if quick else 100)):
+        pool += stories.generated_pool(ctx, prof, n)
+    jobs = [(s, ctx.seed * 7331 + si * 3 + w) for si, s in enumerate(pool) for w in range(1 if quick else 3)]
+    with ProcessPoolExecutor(max_workers=14) as ex:
+        for res in ex.map(position_case, jobs, chunksize=2):
+            if res["skipped"]:
+                ctx.count("positions_skipped_" + res["skipped"])
+                continue
+            ctx.case("positions:" + hashlib.sha1(res["digest"].encode()).hexdigest(), res["nontrivial"])
+            ctx.count("saves_read_back", res["saves"])
+            for rp, sig in res["violations"][:1]:
+                ctx.violation("oracle", rp, signature=sig)
+
+
 def run(ctx):
     quick = ctx.tier == "quick"
+    positions(ctx)
     jobs = []
     for f in common.corpus_json():
         jobs.append((f, "corpus-reference", True, None))
